@@ -521,12 +521,18 @@ def alias_inplace_rule(prog, run, rule, quals):
             continue
         f = rel(prog.mods[fi.mod].path)
         pairs = {}          # name -> {(other name, assignment node)}
+        views = set()
         for a in ast.walk(fi.node):
             if not (isinstance(a, ast.Assign) and len(a.targets) == 1):
                 continue
             t, v = a.targets[0], a.value
             arms = [v.body, v.orelse] if isinstance(v, ast.IfExp) else [v]
             for arm in arms:
+                # a basic slice of an array (`b = a[:, :n]`) is a view: the same memory under another shape
+                if isinstance(t, ast.Name) and isinstance(arm, ast.Subscript) and isinstance(arm.value, ast.Name) and arm.value.id != t.id \
+                        and all(isinstance(z, ast.Slice) for z in astq.index_elts(arm)):
+                    pairs.setdefault(t.id, set()).add((arm.value.id, a))
+                    views.add((t.id, arm.value.id))
                 if isinstance(t, ast.Name) and isinstance(arm, ast.Name) and arm.id != t.id:
                     pairs.setdefault(t.id, set()).add((arm.id, a))
                 elif isinstance(t, (ast.Tuple, ast.List)) and isinstance(arm, (ast.Tuple, ast.List)) and len(arm.elts) == len(t.elts):
